@@ -560,13 +560,15 @@ def u7(ctx):
     for n in cfg.stmt_nodes():
         if n.kind == "stmt" and isinstance(n.ast, ast.Expr) and isinstance(n.ast.value, ast.Yield) and n.ast.value.value is not None:
             # the yielded triple, also when it was built in a local first (`item = (name, ct, etag); yield item`)
+            from .common import as_tuple
             for o in origins(du, n, n.ast.value.value):
-                if o.kind == "expr" and not o.path and isinstance(o.leaf, ast.Tuple) and len(o.leaf.elts) == 3:
-                    ys.append((o.node or n, o.leaf))
+                elts_ = as_tuple(ctx, it, o.node or n, o.leaf) if (o.kind == "expr" and not o.path and o.leaf is not None) else None
+                if elts_ and len(elts_) == 3:
+                    ys.append((o.node or n, elts_))
     if not ys:
         raise AnalysisError("GitStore.iter_with_etag: yield (name, content_type, etag) not found")
     for y, tup in ys:
-        a = tup.elts[1]
+        a = tup[1]
         obs.append(ctx.ob(typed_by_guess(it, y, a, du), it.qualname, where(it, y), "listing reports MIMETYPES.guess_type(name)",
                           "content type = MIMETYPES.guess_type(name)[0] or the default",
                           "GitStore.iter_with_etag reports `%s` as content type, not MIMETYPES.guess_type(name)" % src(a)))
